@@ -421,6 +421,39 @@ fn main() {
     if !st1.exhausted {
         run.cap("small band not exhausted");
     }
+    // ---- constructors asked for more than 64 bits must be rejected (panic / Err), never truncate ---------------
+    // (seed `C17-from-iter-truncates-beyond-64`: `from_iter` - hence `from_str` - silently kept the first 64 bits)
+    {
+        let fail = |op: &str, l: usize, what: String| run.fail(&format!("bitseq:overcap:{op}:len{l}"), &what, json!({"op": op, "len": l}));
+        for l in [65usize, 66, 67, 70, 96, 127, 128, 129, 200] {
+            for pat in 0..4 {
+                let m: M = (0..l).map(|i| match pat { 0 => false, 1 => true, 2 => i % 2 == 0, _ => i >= 64 }).collect();
+                run.add("overcapacity_constructions", 4);
+                if let Ok(g) = catch(|| BitSeq::from_iter(m.iter().copied())) {
+                    fail("from_iter(bools)", l, format!("accepted {l} bits, returned {} (len {})", g, g.len()));
+                }
+                if let Ok(g) = catch(|| BitSeq::from_iter(m.iter().map(|&b| b as u8))) {
+                    fail("from_iter(u8)", l, format!("accepted {l} bits, returned {} (len {})", g, g.len()));
+                }
+                if let Ok(Ok(g)) = catch(|| BitSeq::from_str(&show(&m))) {
+                    fail("from_str", l, format!("accepted a string of {l} bits, returned {} (len {})", g, g.len()));
+                }
+                if let Ok(g) = catch(|| BitSeq::new(if pat == 0 { 0 } else { u64::MAX }, l)) {
+                    fail("new(val,len)", l, format!("accepted len {l}, returned {} (len {})", g, g.len()));
+                }
+            }
+            run.add("overcapacity_constructions", 3);
+            if let Ok(g) = catch(|| BitSeq::zeros(l)) {
+                fail("zeros", l, format!("accepted len {l}, returned len {}", g.len()));
+            }
+            if let Ok(g) = catch(|| BitSeq::ones(l)) {
+                fail("ones", l, format!("accepted len {l}, returned len {}", g.len()));
+            }
+            if let Ok(g) = catch(|| BitSeq::new_rev(1, l)) {
+                fail("new_rev", l, format!("accepted len {l}, returned len {}", g.len()));
+            }
+        }
+    }
     let coverage = json!({
         "states": st1.states + st2.states + st3.states + st4.states,
         "transitions": st1.transitions + st2.transitions + st3.transitions + st4.transitions,
